@@ -407,14 +407,14 @@ type Reply struct {
 	Status     int
 	Header     [][2]string // written in this order, names and values verbatim
 	Body       []byte
-	Chunked    bool        // Transfer-Encoding: chunked (in pieces of ChunkSize, default 4096) instead of Content-Length
+	Chunked    bool // Transfer-Encoding: chunked (in pieces of ChunkSize, default 4096) instead of Content-Length
 	ChunkSize  int
-	Trailer    [][2]string // only with Chunked
-	NoLength   bool        // neither Content-Length nor chunking: body delimited by closing the connection
-	CloseAfter bool        // close the connection after the reply
+	Trailer    [][2]string     // only with Chunked
+	NoLength   bool            // neither Content-Length nor chunking: body delimited by closing the connection
+	CloseAfter bool            // close the connection after the reply
 	Wait       <-chan struct{} // if non-nil the reply is delayed until the channel is closed
-	Hijack     func(s *Seen) // if non-nil: called instead of writing anything (the script owns Conn); the connection is closed after it returns
-	OmitBody   bool        // write the headers (incl. Content-Length of Body) but no body (HEAD, 204, 304)
+	Hijack     func(s *Seen)   // if non-nil: called instead of writing anything (the script owns Conn); the connection is closed after it returns
+	OmitBody   bool            // write the headers (incl. Content-Length of Body) but no body (HEAD, 204, 304)
 }
 
 // Bytes renders the reply.
